@@ -6,6 +6,7 @@ Driver lines (family lscr):
   lscr consts <lscr>           every constant of a script through parse_lrcr_file_header + parse_lrcr_crb: [[name, lingo, js], …]
   lscr cfloat <10 bytes>       unpack_float80
   lscr lingo|js <lscr> <lnam>  whole-script path (the literal is read off the `put` line)
+  lscr readdbl <utf-8 text>    the float reader (Drx/Lscr/LitEvalFloat.lean readDbl) against CPython float()
   lscr evallingo|evallingo2|evaljs|evalint|evaldec <utf-8 text>   the spec-side readers (Lean: Drx/Lscr/LitEval.lean; evallingo2 = the
                                recursive-descent twin of the Lingo scanner)
   lscr lingosafe <bytes>       the decidable domain of theorem lingo_string_partial
@@ -205,6 +206,63 @@ def py_eval_dec(s):
     return [neg, m, (-int(r) if eneg else int(r)) - len(fp)]
 
 
+def py_read_dbl(s):
+    """what the literal reads back as: [neg, m, e] with the magnitude m*2^e normalised like the model's `roundDbl`
+    (2^52 <= m < 2^53, or e = -1074), [neg, "inf"] beyond the double range, None if it is not a decimal literal.
+    CPython's float() is the oracle for decimal -> nearest double."""
+    d = py_eval_dec(s)
+    if d is None:
+        return None
+    x = abs(float(s))
+    if math.isinf(x):
+        return [d[0], "inf"]
+    if x == 0.0:
+        return [d[0], 0, -1074]
+    fr, ex = math.frexp(x)
+    m, e = int(fr * (1 << 53)), ex - 53
+    if e < -1074:
+        m >>= (-1074 - e); e = -1074
+    return [d[0], m, e]
+
+
+def rand_float_text(rng):
+    """decimal texts around doubles: repr (the round-trip hypothesis of float_normal_partial), longer and shorter renderings,
+    exact midpoints between neighbouring doubles (ties), the ends of the range"""
+    r = rng.random()
+    if r < 0.1:
+        return rng.choice(["0.0", "-0.0", "5e-324", "2.4703282292062327e-324", "2.4703282292062328e-324", "2.5e-324", "1e-400", "1.7976931348623157e+308",
+                           "1.7976931348623158e+308", "1.797693134862315807e+308", "1.797693134862315808e+308", "1e400", "-1e400", "2.2250738585072014e-308",
+                           "2.2250738585072011e-308", "4.9406564584124654e-324", "0.1", "3.001", "1e22", "1e23", "9007199254740993", "9007199254740992.5"])
+    kind = rng.choice(["normal", "normal", "normal", "denormal", "small", "big", "int"])
+    if kind == "normal": bits = rng.randrange(1 << 52, 0x7FF << 52)
+    elif kind == "denormal": bits = rng.randrange(1, 1 << 52)
+    elif kind == "small": bits = rng.randrange(1 << 52, 40 << 52)
+    elif kind == "big": bits = rng.randrange(0x7C0 << 52, 0x7FF << 52)
+    else: bits = struct.unpack(">Q", struct.pack(">d", float(rng.randrange(0, 1 << 60))))[0]
+    x = struct.unpack(">d", struct.pack(">Q", bits))[0]
+    how = rng.random()
+    if how < 0.55:
+        t = repr(x)
+    elif how < 0.7:
+        t = "%.17e" % x
+    elif how < 0.8:
+        t = "%.*e" % (rng.choice([0, 3, 8, 15, 16]), x)
+    elif how < 0.9 and 1e-5 < x < 1e15:
+        t = "%.*f" % (rng.choice([0, 1, 5, 20]), x)
+    else:
+        # the exact midpoint between x and its successor, written out in full (a tie: must go to the even neighbour)
+        nxt = struct.unpack(">d", struct.pack(">Q", bits + 1))[0]
+        if math.isinf(nxt):
+            t = repr(x)
+        else:
+            mid = (Fraction(x) + Fraction(nxt)) / 2
+            k = 0
+            while mid.denominator != 1 and k < 1200:
+                mid *= 10; k += 1
+            t = "%de-%d" % (mid.numerator // mid.denominator, k) if k else str(int(mid))
+    return ("-" if rng.random() < 0.2 else "") + t
+
+
 # ---------------------------------------------------------------------------------------------- classes of known findings
 
 def has_backslash(b): return 0x5C in b
@@ -369,6 +427,12 @@ def cases(rng, tier):
         else: lines.append("lscr evaldec " + hx(rng.choice(["3.001", "-3.001", "1e+22", "1e-05", "1.5e-7", "70000.0", "0.0", "-0.0", "5e-324", "1.7976931348623157e+308", "inf", "nan", "1.", ".5", "1e", "1e+", "1.2.3", "12"]).encode()))
     for i in range(0, len(lines), 100):
         out.append(Case(kind="readers", spec=dict(batch=i // 100), lines=lines[i:i + 100], expect=[None] * len(lines[i:i + 100])))
+    # 6. the float reader (`readDbl`: decimal literal -> sign and nearest double) against CPython's float(); more than half of
+    #    the texts are repr(x) of random doubles: the samples of the hypothesis `ReprRoundTrips` of theorem float_normal_partial
+    nfl = dict(quick=600, thorough=12000, search=0)[tier]
+    lines = ["lscr readdbl " + hx(rand_float_text(rng).encode()) for _ in range(nfl)]
+    for i in range(0, len(lines), 100):
+        out.append(Case(kind="float-reader", spec=dict(batch=i // 100), lines=lines[i:i + 100], expect=[None] * len(lines[i:i + 100])))
     return out
 
 
@@ -429,6 +493,8 @@ def impl(case):
                 out.append(canon(py_eval_int(B(t[2]).decode("utf-8"))))
             elif cmd == "evaldec":
                 out.append(canon(py_eval_dec(B(t[2]).decode("utf-8"))))
+            elif cmd == "readdbl":
+                out.append(canon(py_read_dbl(B(t[2]).decode("utf-8"))))
             else:
                 out.append("bad-op")
         except RecursionError:
